@@ -16,24 +16,24 @@ Lemma step_local md m s t m' s' d r :
   emode m' = true /\ forallb eframe s' = true /\ d = [] /\ js_step md m (s ++ r) t = Some (m', s' ++ r, []).
 Proof.
   intros Hm Hs H. destruct m; try discriminate Hm; cbn [js_step] in *.
-  - unfold step_want, cfg in *. destruct t as [x|k x|x| |p]; [| destruct k | | | destruct p]; try discriminate H;
+  - unfold step_want, cfg in *. destruct t as [x|k x|x| |p|nlt]; [| destruct k | | | destruct p |]; try discriminate H;
       try (inversion H; subst; clear H; cbn; rewrite ?Hs; auto; fail).
     + destruct closable; [|discriminate H]. destruct s as [|f s]; [discriminate H|]. destruct f; try discriminate H.
       inversion H; subst. cbn in Hs. cbn. auto.
     + destruct closable; [|discriminate H]. destruct s as [|f s]; [discriminate H|]. destruct f; try discriminate H.
       inversion H; subst. cbn in Hs. cbn. auto.
-  - unfold step_have, cfg, seq1 in *. destruct t as [x|k x|x| |p]; try discriminate H. destruct p; try discriminate H;
+  - unfold step_have, cfg, seq1 in *. destruct t as [x|k x|x| |p|nlt]; try discriminate H. destruct p; try discriminate H;
       try (inversion H; subst; clear H; cbn; rewrite ?Hs; auto; fail);
       try (destruct isint; [discriminate H|]; inversion H; subst; clear H; cbn; rewrite ?Hs; auto; fail);
       destruct s as [|f s]; try discriminate H; destruct f; try discriminate H; cbn in Hs; try discriminate Hs;
       inversion H; subst; clear H; cbn; rewrite ?Hs; auto.
-  - unfold cfg in *. destruct t as [x|k x|x| |p]; try discriminate H; inversion H; subst; cbn; rewrite ?Hs; auto.
-  - unfold cfg, seq1 in *. destruct t as [x|k x|x| |p]; try discriminate H; try (inversion H; subst; cbn; rewrite ?Hs; auto; fail).
+  - unfold cfg in *. destruct t as [x|k x|x| |p|nlt]; try discriminate H; inversion H; subst; cbn; rewrite ?Hs; auto.
+  - unfold cfg, seq1 in *. destruct t as [x|k x|x| |p|nlt]; try discriminate H; try (inversion H; subst; cbn; rewrite ?Hs; auto; fail).
     destruct p; try discriminate H. destruct closable; [|discriminate H]. destruct s as [|f s]; [discriminate H|]. destruct f; try discriminate H.
     inversion H; subst. cbn in Hs. cbn. auto.
   - (* MSeq [:] None (MWant false) *)
     destruct ps as [|p ps]; [discriminate Hm|]. destruct p as [t'| |]; try discriminate Hm.
-    destruct t' as [x|k x|x| |q]; try discriminate Hm. destruct q; try discriminate Hm.
+    destruct t' as [x|k x|x| |q|nlt]; try discriminate Hm. destruct q; try discriminate Hm.
     destruct ps; [|discriminate Hm]. destruct push; [discriminate Hm|]. destruct m; try discriminate Hm. destruct closable; [discriminate Hm|].
     destruct (pat_match (PT (TP PColon)) t); [|discriminate H]. unfold cfg in *. inversion H; subst. cbn. rewrite ?Hs. auto.
 Qed.
@@ -52,7 +52,7 @@ Qed.
 
 Lemma step_want_cl cl s t r : step_want false s t = Some r -> step_want cl s t = Some r.
 Proof.
-  unfold step_want. destruct t as [x|k x|x| |p]; auto. destruct p; auto; discriminate.
+  unfold step_want. destruct t as [x|k x|x| |p|nlt]; auto. destruct p; auto; discriminate.
 Qed.
 
 (* an expression: from "operand expected" to "operand seen" on the empty stack *)
